@@ -219,6 +219,9 @@ def directed(rng):
         # a reply that could not be sent (a transient failure: the server goes on) has ended its call all the same: the id is free
         add('sendfail-reuse-%d' % v, {}, [S(call(1)) if v != 1 else S(call(1), call(2)), D, dict(a='sendfail'), hret('m1.1'), D] + ([hret('m1.2'), D] if v == 1 else [])
                                          + ([dict(a='sendheal')] if v != 2 else []) + [S(call(1)), D, hret('m2.1'), D, S(call(1), note()), D, hret('m3.1'), hret('m3.2'), D])
+        # Stop arrives while the reader is between taking a message in and waking the dispatcher (held at its log line there)
+        add('stop-at-enqueue-%d' % v, {'recvUnblocks': True}, [dict(a='holdlog', kind='Received request batch'), [S(call(1)), S(note()), S(call(1), note())][v], D, dict(a='stop'), D,
+                                                               dict(a='unhold'), D, dict(a='restart'), S(call(2)), D, hret('m2.1'), D])
         add('restart-%d' % v, {'recvUnblocks': True}, [S(call(1)), D, dict(a='stop'), D, hret('m1.1'), D, dict(a='restart'), S(call(1)), D, hret('m2.1'), D])
         add('eofdata-%d' % v, {}, [dict(a='recveofdata', mem=[note() if v % 2 else call(1)]), D])
         # push: late / duplicate / unknown replies, callback from a notification handler behind the barrier
